@@ -11,6 +11,10 @@ project(env) -> {"reps": [observation, ...], "col": collector observation}   (fo
   col          behave.summary.SummaryCollector().visit_many(features): summary_counts per kind, failed / errored lists.
 Only numbers, status names and file:line locations are read -- one regular expression per documented line format.
 A crash of a reporter is recorded (`crashed` = exception type, `crash_at` = init / feature / end), never raised.
+  ran          the final status (read now, after the run) of every scenario object that was handed to the formatters
+               during the run, and of its steps -- recorded through RunProbe, a formatter of this module that the check
+               adds to its runs (`"formats": ["run.reports_c14:RunProbe"]`); "" / [] = never announced.  An outline may
+               hand out new row objects when it is asked again after the run; what counts is the row that ran.
 Python records; the census and every verdict are computed by specs/Summary_Trace.tla."""
 import io
 import os
@@ -36,6 +40,51 @@ PART_RX = {"v1": re.compile(r"(\d+) (\w+)"), "v1A": re.compile(r"(\d+) (\w+)"), 
            "v2": re.compile(r"(\w+): (\d+)"), "v3": re.compile(r"(\w+): (\d+)")}
 LIST_HEAD = re.compile(r"^(Failing|Errored) scenarios:$")
 LIST_ITEM = re.compile(r"^  (\S+):(\d+)  ")
+
+
+PROBE = "run.reports_c14:RunProbe"
+_probe = [None]
+
+
+def _probe_class():
+    from behave.formatter.base import Formatter
+
+    class RunProbe(Formatter):
+        """keeps the scenario objects the runner announces (public formatter extension point); writes nothing"""
+        name = "c14probe"
+        description = "C14: remembers which scenario objects ran"
+
+        def __init__(self, stream_opener, config):
+            Formatter.__init__(self, stream_opener, config)
+            self.ran = []
+            _probe[0] = self
+
+        def scenario(self, scenario):
+            self.ran.append(scenario)
+    return RunProbe
+
+
+def __getattr__(name):          # behave loads "run.reports_c14:RunProbe" with getattr(module, "RunProbe")
+    if name == "RunProbe":
+        cls = _probe_class()
+        globals()["RunProbe"] = cls
+        return cls
+    raise AttributeError(name)
+
+
+def ran_objects(env):
+    """-> {"status": [per element], "steps": [per element]} of the scenario objects that ran (final statuses, read now)"""
+    n = len(env.flat["elems"])
+    out = {"status": [""] * n, "steps": [[] for _ in range(n)]}
+    probe, _probe[0] = _probe[0], None
+    if probe is None or probe.config is not env.config:
+        return out
+    for sc in probe.ran:            # a retried scenario is announced twice: the same object, the later reading wins
+        el = env.elid(sc)
+        if el and env.flat["elems"][el - 1]["kind"] == "scenario":
+            out["status"][el - 1] = sc.status.name
+            out["steps"][el - 1] = [st.status.name for st in sc.all_steps]
+    return out
 
 
 def no_line():
@@ -158,4 +207,4 @@ def project(env):
         reps.append(run_reporter(SummaryReporter, "V1", fmt, env))
     for fmt in FORMATS:
         reps.append(run_reporter(SummaryReporterV2, "V2", fmt, env))
-    return {"reps": reps, "col": run_collector(env)}
+    return {"reps": reps, "col": run_collector(env), "ran": ran_objects(env)}
